@@ -22,7 +22,8 @@ import (
 // and Issuer.
 
 // shadowing / layout shapes applied to the root start tag and the Issuer of an otherwise
-// acceptable message whose root is NOT signed (so an attacker can produce them).
+// acceptable message, after signing: on an unsigned root an attacker can produce all of them,
+// on a signed root those that an exclusive-c14n signature does not cover.
 var c20Shapes = []string{
 	"prefixed-ID-before", "prefixed-ID-after", "prefixed-Destination-before", "prefixed-InResponseTo-after", "prefixed-Version-before",
 	"duplicate-ID-evil-first", "duplicate-ID-evil-last", "duplicate-InResponseTo-evil-first",
@@ -36,6 +37,9 @@ var c20Shapes = []string{
 	// an EncryptedAssertion (anyone can encrypt to the SP) whose plaintext is not an assertion
 	// but another Issuer: whatever decryption splices into the tree must not reach the result
 	"encrypted-issuer-before-issuer", "encrypted-issuer-after-issuer", "encrypted-issuer-at-end",
+	// declarations of namespace prefixes nobody uses, named like the decoded attributes: an
+	// exclusive-c14n signature does not cover them, so they can be added to a SIGNED root
+	"xmlns-ID-after", "xmlns-Destination-after", "xmlns-InResponseTo-after", "xmlns-Version-after", "xmlns-ID-before",
 }
 
 var c20EncIssuerOnce sync.Once
@@ -56,7 +60,7 @@ type c20Case struct {
 	Kind     string   `json:"kind"` // "Response" | "LogoutResponse"
 	Genuine  *c08Case `json:"genuine,omitempty"`
 	Shapes   []int    `json:"shapes,omitempty"`
-	Signed   bool     `json:"root_signed,omitempty"` // LogoutResponse only
+	Signed   bool     `json:"root_signed,omitempty"` // the root carries the signature (exclusive c14n); shapes are applied after signing
 	Deflate  bool     `json:"deflate,omitempty"`
 	NoIssuer bool     `json:"no_idp_issuer,omitempty"` // SP without a configured IdP issuer (multi-IdP deployments)
 }
@@ -174,6 +178,16 @@ func c20Apply(shape string, s string) string {
 		return s[:k] + s[e:]
 	case "empty-issuer":
 		return issuerText(func(string) string { return "" })
+	case "xmlns-ID-after":
+		return insLast(`xmlns:ID="_evil-id"`)
+	case "xmlns-Destination-after":
+		return insLast(`xmlns:Destination="https://evil.example.com/acs"`)
+	case "xmlns-InResponseTo-after":
+		return insLast(`xmlns:InResponseTo="_evil-req"`)
+	case "xmlns-Version-after":
+		return insLast(`xmlns:Version="1.1"`)
+	case "xmlns-ID-before":
+		return insFirst(`xmlns:ID="_evil-id"`)
 	case "encrypted-issuer-before-issuer", "encrypted-issuer-after-issuer", "encrypted-issuer-at-end":
 		if issStart < 0 {
 			return s
@@ -232,7 +246,11 @@ func c20Exec(c c20Case) (keys []string, detail, class string) {
 		enc = e
 	case c.Kind == "Response":
 		r := idp.DefaultResponse(1)
-		r.Assertions[0].Sign = idp.SignSpec{Key: "K1"}
+		if c.Signed {
+			r.Sign = idp.SignSpec{Key: "K1"} // exclusive c14n
+		} else {
+			r.Assertions[0].Sign = idp.SignSpec{Key: "K1"}
+		}
 		for _, sh := range c.Shapes {
 			if c20Shapes[sh] == "default-ns-root" {
 				r.Layout.Prefix = 2
@@ -346,7 +364,7 @@ func c20Replay(raw json.RawMessage) ([]string, string) {
 }
 
 func c20Run(r *mc.Run) {
-	r.Rule = "every document of C08's layout space (same generator and bounds) + attacker-shaped documents with an unsigned root: every combination of <=2 (quick) / <=3 (thorough) of 38 shadowing/layout shapes (namespace-prefixed and duplicated root attributes before/after the real one, two Issuers in either order, foreign-namespace / nested Issuer first, comments/CDATA/character references/whitespace/child element in Issuer, character references and raw TAB/LF/CR in an attribute value, prolog variants, quote style, attribute order, BOM, default namespace, prefix rebinding, an EncryptedAssertion whose plaintext is another Issuer before/after the Issuer or at the end) x raw/DEFLATE x IdP issuer configured or not, for SSO Responses and signed/unsigned LogoutResponses; differential oracle; non-trivial = full validation accepted, so the two decoders were compared; distinct = distinct case"
+	r.Rule = "every document of C08's layout space (same generator and bounds) + attacker-shaped documents with an unsigned root: every combination of <=2 (quick) / <=3 (thorough) of 43 shadowing/layout shapes (namespace-prefixed and duplicated root attributes before/after the real one, two Issuers in either order, foreign-namespace / nested Issuer first, comments/CDATA/character references/whitespace/child element in Issuer, character references and raw TAB/LF/CR in an attribute value, prolog variants, quote style, attribute order, BOM, default namespace, prefix rebinding, an EncryptedAssertion whose plaintext is another Issuer before/after the Issuer or at the end, declarations of unused namespace prefixes named like the decoded attributes) x raw/DEFLATE x IdP issuer configured or not, for SSO Responses and LogoutResponses with signed and unsigned roots (shapes applied after signing); differential oracle; non-trivial = full validation accepted, so the two decoders were compared; distinct = distinct case"
 	var cases []c20Case
 	for _, g := range c08Cases(r) {
 		g := g
@@ -359,9 +377,6 @@ func c20Run(r *mc.Run) {
 	r.Set("shape_deviation_bound", bound)
 	for _, kind := range []string{"Response", "LogoutResponse"} {
 		for _, signed := range []bool{false, true} {
-			if kind == "Response" && signed {
-				continue
-			}
 			mc.Enumerate(bound, r.Expired, func(ch *mc.Chooser) {
 				c := c20Case{Kind: kind, Signed: signed}
 				for i := range c20Shapes {
